@@ -42,6 +42,153 @@ type Aliases struct {
 	info *types.Info
 	def  map[types.Object]ast.Expr
 	n    map[types.Object]int
+	// DeclOf finds the declaration of a function of the same package (builder helpers);
+	// optional
+	DeclOf func(*types.Func) *ast.FuncDecl
+	inst   map[*ast.CallExpr]*ast.CompositeLit
+}
+
+// instantiate reads a call of a builder — a local closure or a function of the same package
+// whose only return statement returns a fresh composite literal (possibly named first) — as
+// that literal with the parameters replaced by the arguments of the call. The copy carries
+// the type information of the original, so it is read like a literal written at the call.
+func (al *Aliases) instantiate(call *ast.CallExpr) *ast.CompositeLit {
+	if lit, ok := al.inst[call]; ok {
+		return lit
+	}
+	if al.inst == nil {
+		al.inst = map[*ast.CallExpr]*ast.CompositeLit{}
+	}
+	al.inst[call] = nil
+	var ftype *ast.FuncType
+	var body *ast.BlockStmt
+	var helper *ast.FuncDecl
+	inner := al
+	switch f := Unparen(call.Fun).(type) {
+	case *ast.Ident:
+		if d := al.Def(f); d != nil {
+			if fl, ok := Unparen(d).(*ast.FuncLit); ok {
+				ftype, body = fl.Type, fl.Body
+			}
+		} else if fn, ok := al.info.Uses[f].(*types.Func); ok && al.DeclOf != nil {
+			if fd := al.DeclOf(fn); fd != nil && fd.Body != nil && fd.Recv == nil {
+				ftype, body, helper = fd.Type, fd.Body, fd
+				inner = BuildAliases(al.info, fd.Body)
+				inner.DeclOf = al.DeclOf
+			}
+		}
+	}
+	if body == nil || call.Ellipsis.IsValid() {
+		return nil
+	}
+	var rets []*ast.ReturnStmt
+	ast.Inspect(body, func(n ast.Node) bool {
+		switch x := n.(type) {
+		case *ast.FuncLit:
+			return false
+		case *ast.ReturnStmt:
+			rets = append(rets, x)
+		}
+		return true
+	})
+	if len(rets) != 1 || len(rets[0].Results) != 1 {
+		return nil
+	}
+	lit := inner.Literal(rets[0].Results[0])
+	if lit == nil {
+		return nil
+	}
+	sub := map[types.Object]ast.Expr{}
+	i := 0
+	for _, f := range ftype.Params.List {
+		for _, nm := range f.Names {
+			if i >= len(call.Args) {
+				return nil
+			}
+			if obj := al.info.Defs[nm]; obj != nil {
+				if inner.n[obj] > 0 {
+					return nil // the builder overwrites a parameter
+				}
+				sub[obj] = call.Args[i]
+			}
+			i++
+		}
+	}
+	if i != len(call.Args) {
+		return nil
+	}
+	out, _ := SubstCopy(al.info, lit, sub).(*ast.CompositeLit)
+	al.inst[call] = out
+	if out != nil {
+		InstantiatedIn[out] = helper
+	}
+	return out
+}
+
+// SubstOrigin maps every node copied by SubstCopy to the node it was copied from;
+// InstantiatedIn maps an instantiated builder literal to the declaration of the builder
+// (nil for a local closure).
+var (
+	SubstOrigin    = map[ast.Node]ast.Node{}
+	InstantiatedIn = map[*ast.CompositeLit]*ast.FuncDecl{}
+)
+
+// SubstCopy copies an expression, replacing uses of the given objects by the mapped
+// expressions; copied nodes get the type information of their originals.
+func SubstCopy(info *types.Info, e ast.Expr, sub map[types.Object]ast.Expr) ast.Expr {
+	var cp func(e ast.Expr) ast.Expr
+	keep := func(old, nw ast.Expr) ast.Expr {
+		if tv, ok := info.Types[old]; ok {
+			info.Types[nw] = tv
+		}
+		SubstOrigin[nw] = old
+		return nw
+	}
+	cp = func(e ast.Expr) ast.Expr {
+		switch x := e.(type) {
+		case nil:
+			return nil
+		case *ast.Ident:
+			if r, ok := sub[info.Uses[x]]; ok && info.Uses[x] != nil {
+				return r
+			}
+			return x
+		case *ast.ParenExpr:
+			return keep(x, &ast.ParenExpr{Lparen: x.Lparen, X: cp(x.X), Rparen: x.Rparen})
+		case *ast.UnaryExpr:
+			return keep(x, &ast.UnaryExpr{OpPos: x.OpPos, Op: x.Op, X: cp(x.X)})
+		case *ast.StarExpr:
+			return keep(x, &ast.StarExpr{Star: x.Star, X: cp(x.X)})
+		case *ast.BinaryExpr:
+			return keep(x, &ast.BinaryExpr{X: cp(x.X), OpPos: x.OpPos, Op: x.Op, Y: cp(x.Y)})
+		case *ast.SelectorExpr:
+			n := &ast.SelectorExpr{X: cp(x.X), Sel: x.Sel}
+			if s, ok := info.Selections[x]; ok {
+				info.Selections[n] = s
+			}
+			return keep(x, n)
+		case *ast.TypeAssertExpr:
+			return keep(x, &ast.TypeAssertExpr{X: cp(x.X), Lparen: x.Lparen, Type: x.Type, Rparen: x.Rparen})
+		case *ast.IndexExpr:
+			return keep(x, &ast.IndexExpr{X: cp(x.X), Lbrack: x.Lbrack, Index: cp(x.Index), Rbrack: x.Rbrack})
+		case *ast.CallExpr:
+			n := &ast.CallExpr{Fun: cp(x.Fun), Lparen: x.Lparen, Ellipsis: x.Ellipsis, Rparen: x.Rparen}
+			for _, a := range x.Args {
+				n.Args = append(n.Args, cp(a))
+			}
+			return keep(x, n)
+		case *ast.KeyValueExpr:
+			return &ast.KeyValueExpr{Key: x.Key, Colon: x.Colon, Value: cp(x.Value)}
+		case *ast.CompositeLit:
+			n := &ast.CompositeLit{Type: x.Type, Lbrace: x.Lbrace, Rbrace: x.Rbrace, Incomplete: x.Incomplete}
+			for _, el := range x.Elts {
+				n.Elts = append(n.Elts, cp(el))
+			}
+			return keep(x, n)
+		}
+		return e
+	}
+	return cp(e)
 }
 
 func BuildAliases(info *types.Info, body *ast.BlockStmt) *Aliases {
@@ -184,6 +331,8 @@ func (al *Aliases) Literal(e ast.Expr) *ast.CompositeLit {
 			}
 			e = d
 			continue
+		case *ast.CallExpr:
+			return al.instantiate(x)
 		default:
 			return nil
 		}
@@ -202,6 +351,13 @@ func FindRewriteSites(p *core.Program, nk *NodeKinds, rel string) []*RewriteSite
 			continue
 		}
 		al := BuildAliases(info, fd.Body)
+		al.DeclOf = func(fn *types.Func) *ast.FuncDecl {
+			if fn.Pkg() != pk.Types {
+				return nil
+			}
+			_, d := p.DeclOf(fn)
+			return d
+		}
 		// wrapper closures: name -> index of the forwarded parameter
 		wrappers := map[types.Object]int{}
 		isPatch := func(call *ast.CallExpr) bool {
